@@ -42,6 +42,20 @@ let handle (toks: string list) : string =
   | "txtdec" :: id :: fs :: hex :: [] ->
       let f = (match fs with "dos3x" -> TDos | "prodos" -> TProdos | _ -> TCpm) in
       id ^ " ok:" ^ hex_of_bytes (text_decode f (hexarg hex))
+  | "cpmext" :: id :: _label :: exm :: bs :: spx :: v3 :: spec :: eof :: [] ->
+      let ni s = n_of_int (int_of_string s) in
+      let idx = if spec = "-" then [] else List.concat_map (fun p -> match String.split_on_char '-' p with
+        | [a; b] -> List.init (int_of_string b - int_of_string a + 1) (fun k -> int_of_string a + k)
+        | _ -> [int_of_string p]) (String.split_on_char ',' spec) in
+      let cs = List.map n_of_int idx in
+      let p = { c_exm = ni exm; c_bs = ni bs; c_spx = ni spx; c_v3 = (v3 = "1") } in
+      (* free blocks 1, 2, 3, ...: a pointer is printed relative to the first block handed out, 0 is a hole *)
+      let free = List.init 600 (fun k -> n_of_int (k + 1)) in
+      let es = cpm_entries p cs free (ni eof) in
+      let ent e = string_of_int (int_of_n e.e_idx) ^ " " ^ string_of_int (int_of_n e.e_rc) ^ " " ^ string_of_int (int_of_n e.e_lb) ^ " "
+                  ^ String.concat "," (List.map (fun ptr -> let v = int_of_n ptr in if v = 0 then "-" else string_of_int (v - 1)) e.e_ptrs) in
+      let pairs = (match cpm_read p es with Some l -> String.concat "," (List.map (fun (c, _) -> string_of_int (int_of_n c)) l) | None -> "unreadable") in
+      id ^ " " ^ String.concat ";" (List.map ent es) ^ " | " ^ pairs ^ " | " ^ string_of_int (int_of_n (cpm_eof es))
   | "pdtree" :: id :: _label :: spec :: [] ->
       (* the same chunk set on a fresh volume: free blocks are 7, 8, 9, ... *)
       let idx = List.concat_map (fun p -> match String.split_on_char '-' p with
